@@ -17,6 +17,17 @@ fn app(threads: usize) -> App<()> {
             Response::new(StatusCode::OK, "slow-done")
         })
         .with_stateless_route("/big*", |_r: Request| Response::new(StatusCode::OK, vec![b'x'; 6 * 1024 * 1024]))
+        // an open WebSocket: the handler owns the connection (and its worker) until the client goes away
+        .with_websocket_route("/ws*", |_r: Request, mut stream: humphrey::stream::Stream, _s: std::sync::Arc<()>| {
+            use std::io::{Read, Write};
+            let _ = stream.write_all(b"HTTP/1.1 101 Switching Protocols\r\nUpgrade: websocket\r\nConnection: Upgrade\r\n\r\n");
+            let mut buf = [0u8; 256];
+            while let Ok(n) = stream.read(&mut buf) {
+                if n == 0 {
+                    break;
+                }
+            }
+        })
 }
 
 #[repr(C)]
@@ -135,6 +146,15 @@ pub fn dispatch(name: &str, args: &[&str]) -> Option<String> {
                     }
                     'W' => {
                         let _ = s.write_all(b"GET /big HTTP/1.1\r\n\r\n");
+                    }
+                    'O' => {
+                        // WebSocket open: upgrade accepted (101 read), then the connection just stays
+                        let _ = s.write_all(b"GET /ws HTTP/1.1\r\nHost: x\r\nUpgrade: websocket\r\nConnection: Upgrade\r\nSec-WebSocket-Key: dGhlIHNhbXBsZSBub25jZQ==\r\n\r\n");
+                        let (b, _) = read_available(&mut s, wait_first, 30);
+                        if fits && when != "before" && !b.starts_with(b"HTTP/1.1 101") {
+                            probe_ok = false;
+                        }
+                        got = b;
                     }
                     _ => {}
                 }
